@@ -7,7 +7,7 @@ env = dict(os.environ); env.pop("MITMPROXY_VERIF", None)
 jobs = sys.argv[1] if len(sys.argv) > 1 else "8"
 cmd = ["/venv/bin/python", "-m", "pytest", "-q", "-p", "no:cacheprovider", "--timeout=900",
        "--continue-on-collection-errors", f"--junitxml={out}"] + (["-n", jobs] if jobs != "0" else [])
-subprocess.run(cmd, cwd="/repo", env=env, stdout=subprocess.DEVNULL, stderr=subprocess.DEVNULL)
+subprocess.run(cmd, cwd=os.environ.get("REPO_DIR", "/repo"), env=env, stdout=subprocess.DEVNULL, stderr=subprocess.DEVNULL)
 passed = set()
 for tc in ET.parse(out).getroot().iter("testcase"):
     if not any(ch.tag in ("failure", "error", "skipped") for ch in tc):
